@@ -907,6 +907,14 @@ def run(tier):
               'protocol methods store nothing on the object, the class or '
               'module-level containers except option values and constants',
               'what is remembered depends on which candidates the producer generated before the abort flag became visible: two runs with -j 1 differ')
+    from .. import idkeys
+    chk.guard(idkeys.report_hash, chk, prog, 'C18.R7',
+              'hash values are compared for equality, stored and pickled - '
+              'never formatted into text, used in arithmetic or to order '
+              'values',
+              'names and choices derived from them differ between runs: the output files are not byte-identical')
+    chk.guard(idkeys.report, chk, prog, 'C18.R8', 'no object address (builtin id()) outlives the function that took it: none keys a module-level or object-level container, is stored on an object or put into a record',
+              'addresses differ from run to run (allocation order, ASLR): which cache entries collide, and with them the accepted sequence, is not reproducible')
     extra = None
     if tier == 'thorough':
         from .. import selftest
